@@ -420,6 +420,19 @@ fn main() {
                         case["want"]["scalars"].as_array().unwrap().iter().map(q).collect()),
                     "third_partial_derivative_vec" => {
                         let (i, j, k) = (case["case"]["i"].as_u64().unwrap() - 1, case["case"]["j"].as_u64().unwrap() - 1, case["case"]["k"].as_u64().unwrap() - 1);
+                        // the three-scalar-argument driver is the same computation with the directions (1, 2, 3)
+                        if xs.len() == 3 && (i, j, k) == (0, 1, 2) {
+                            let names = ["a", "b", "c"];
+                            let code3 = format!("__o = list(nd.third_partial_derivative(lambda a, b, c: {}, {:?}, {:?}, {:?}))\n", poly(0, &|i| names[i].to_string()), xs[0], xs[1], xs[2]);
+                            let want3: Vec<f64> = case["want"]["scalars"].as_array().unwrap().iter().map(q).collect();
+                            match py.run(&CString::new(code3.clone()).unwrap(), Some(&locals), None) {
+                                Err(e) => rep.check("driver|third_partial_derivative|n3".into(), false, || json!({"python_error": e.to_string(), "code": code3})),
+                                Ok(()) => {
+                                    let got: Vec<f64> = locals.get_item("__o")?.unwrap().extract()?;
+                                    rep.check("driver|third_partial_derivative|n3".into(), got == want3, || json!({"python": got, "expected": want3}));
+                                }
+                            }
+                        }
                         (format!("__o = list(nd.third_partial_derivative_vec(lambda v: {}, {xlist}, {i}, {j}, {k}))\n", poly(0, &idx)), case["want"]["scalars"].as_array().unwrap().iter().map(q).collect())
                     }
                     "gradient" if !xs.is_empty() => (
